@@ -59,7 +59,7 @@ Proof. exact move_updates_references. Qed.
 Print Assumptions C13_move_updates_references.
 
 (* ill-formed requests are rejected and change nothing (C13-7-fix, C13-8-fix): two elements at one
-   position, a repeated tag, an element related to itself, a block element outside its block; a move
+   position, a repeated tag, a block element outside its block; a move
    of a missing element, onto an occupied position, or of an element related to its own or to the
    target position.  [C13_views_step] therefore needs no well-formedness hypothesis about them. *)
 Theorem C13_rejected_is_noop : forall bs o s, step fixed bs o s = Err -> step_or_stay fixed bs o s = s.
